@@ -114,3 +114,19 @@ Theorem C02_exact_contours_once :
     Forall2 (fun c tr => chainP NQ st1 res (rev (c_points c)) tr) cs trs /\
     Permutation (concat (rev trs)) (List.map Z.of_nat (seq 0 (length res))).
 Proof. exact exact_contours_once. Qed.
+
+(** ** "no boundary segment is shared by two rings or traversed twice", geometric half, as a
+    VERIFIED per-run certificate on the implementation's own result: no two edges of the result
+    rings have more than one point in common (decided with the exact kernel) *)
+From GB Require Import Cert04 Cert02Edges.
+Theorem C02_no_shared_boundary_certificate_sound :
+  forall R : list (list (list qp)),
+  no_shared_boundary R = true -> ForallOrdPairs share_le1_q (result_segs R).
+Proof. exact no_shared_boundary_sound. Qed.
+
+Theorem C02_share_le1_unfold :
+  forall (ax ay bx by_ cx cy dx dy : QArith_base.Q),
+  share_le1_q ((ax, ay), (bx, by_)) ((cx, cy), (dx, dy)) <->
+  (forall x y x' y', SplitCover.on_seg ax ay bx by_ x y -> SplitCover.on_seg cx cy dx dy x y ->
+                     SplitCover.on_seg ax ay bx by_ x' y' -> SplitCover.on_seg cx cy dx dy x' y' -> OnEdge.qeqp x y x' y').
+Proof. exact (fun _ _ _ _ _ _ _ _ => conj (fun H => H) (fun H => H)). Qed.
